@@ -47,12 +47,21 @@ add('C12', 'l0a', 'Exhaustive enumeration of supported sets (size 1-3 quick, 1-4
 add('C13', 'l2', 'Generated locale sets (regions, scripts, variants, near-duplicates, RTL; default anywhere or unlisted), each compiled with load_locales!(); every identity method of every locale and ~15 probe strings per name near a locale name are observed and compared with the configuration.',
     'Trusted: the hand list of RTL languages; the ICU parse of a name is computed inside the generated binary with the same icu_locid crate.',
     technique='property-based testing on generated crates (round-trip and validity-predicate oracles)')
+add('C14', 'l0b', 'Generated locale sets (prefix-related names), base path forms, route tables (static / param / optional / splat / localized segments) and paths; the hooks get_locale_from_path / get_new_path / localize_path and a natively built I18nRoute (generate_routes, match_nested) are compared with a segment model (locale read iff the first segment equals a name; switching rewrites prefix + localized segments only, keeps query and hash; A->B->A identity when every step matches one route; N+1 route families).',
+    'Needs the verif_hooks feature of leptos_i18n_router. Browser navigation / history effects are not reachable natively. Upstream leptos_router panics on some non-ASCII partial matches are classed, not charged.',
+    technique='property-based testing against a segment model, incl. round-trip (A->B->A) relation')
 add('C15', 'l0a', 'Full factorial over cookie header x Accept-Language header x cookie options x parent context x initial_locale for main and sub-contexts created natively (ssr), plus random headers; get_locale_untracked() is compared with the documented precedence model.',
     'Only the server-side (ssr) branches are reachable natively; hydrate/csr sources (html lang, navigator.languages) need a DOM and are not covered.',
     technique='exhaustive factorial enumeration + property-based testing against a precedence model')
 add('C16', 'l0a', 'Generated operation histories (set_locale, set_locale_untracked, scoping, sub-context creation in four ways, accessor creation, effect ticks) over a growing tree of contexts; after every step every view and every previously created accessor is compared with a model of one locale cell per context.',
     'Runs natively with feature ssr and a deterministic single-threaded executor; browser-only effects (cookie write-back, html attributes) are not observable.',
     technique='stateful (model-based) property-based testing over generated histories')
+add('C17', 'l0dyn', 'Arbitrary Unicode string tables (quotes, backslashes, newlines, U+2028/9, </script>, <!--, NUL, astral) served by harness TranslationUnit types and a generated use history; the real registration path (RegisterCtx, provide_i18n_context_component, feature dynamic_load+ssr) is rendered with to_html(); the script must not break out, must parse as a JS literal, and must decode to exactly the used units with their strings in order.',
+    'Trusted: the small JS-literal parser of the harness. The hydrate-side re-emission is wasm-only and not observed.',
+    technique='property-based testing with a round-trip (embed -> parse -> decode) oracle')
+add('C18', 'l0b', 'Exhaustive: every formatter name x option combination x omitted / unknown / duplicated arguments x whitespace through Formatter::from_name_and_args, ParsedValue::new and t_format!; the full option matrix through the __private helpers and td_string!/td_format_string! for 8 locales against freshly built ICU4X formatters. Sampled: call histories of <=60 calls, optionally with 2-8 threads racing on first uses, each in a fresh process (the cache is process-global): results must not depend on history or thread.',
+    'Interleavings are sampled, not controlled. `list_length` (book) vs `list_style` (code) is not asserted. Duplicated arguments: first recognised occurrence wins (as implemented). time_length full/long panic: known finding D23.',
+    technique='exhaustive enumeration + differential property-based testing against fresh ICU4X formatters; stateful histories')
 add('C19', 'l1', 'Generated Cargo.toml manifests (preamble / trailing sections, field orders, spellings, duplicates, bad inherits, missing fields) and directory layouts (decoys, missing files); ConfigFile fields, files read and errors from parse_locales_raw are compared with a three-valued model (must-accept / must-reject / unspecified).',
     'JSON build. Unspecified (not asserted): default locale left out of `locales` but used as an inherits target; undocumented sub-table spellings are not generated.')
 add('C20', 'l1', 'Generated projects where plurals and each formatter family occur rarely and in varied places (other locales, nested subkeys, later namespaces, via `$t`, unreachable surplus keys); TranslationsInfos::get_icu_keys() as a set is compared with the union of Options::into_data_keys over the families the AST needs; locales and namespaces are compared with the configuration.',
@@ -61,6 +70,8 @@ add('C20', 'l1', 'Generated projects where plurals and each formatter family occ
 ENGINES = [
     dict(name='l1', path='engine/l1 (+ l1y, l1j5: same sources built for yaml / json5)', kind_free_text='in-process parser / code-generator / build-helper harness driven by proptest choice tapes; sources of the proc-macro crate compiled in via #[path]'),
     dict(name='l2', path='engine/l2', kind_free_text='generated-crate tier: projects generated from choice tapes are emitted as cargo packages calling the real macros, compiled in one workspace, run, and their printed observations compared with the reference semantics (second stage of C01 C03 C04 C05 C06)'),
+    dict(name='l0b', path='engine/l0b', kind_free_text='native run-time harness: router path helpers (hooks), I18nRoute, formatter parsing and run-time formatting'),
+    dict(name='l0dyn', path='engine/l0dyn', kind_free_text='native run-time harness built with dynamic_load+ssr: server-embedded translations'),
     dict(name='l0a', path='engine/l0a', kind_free_text='native (ssr) run-time harness: locale negotiation, context initialisation, context histories'),
 ]
 
